@@ -17,9 +17,55 @@ from . import core, tf
 from .core import (R, C, SI, SB, BV, EncodingGap, ite, sb_and, sb_or, sb_not, ctx, have_ctx,
                    is_symbolic, event, ZERO, ONE)
 
-RANK = {'bool': 0, 'uint8': 1, 'int': 2, 'float': 3, 'complex': 4}
-NAMES = {'bool': 'bool', 'uint8': 'uint8', 'int': 'int64', 'float': 'float64', 'complex': 'complex128',
-         'str': '<U1', 'object': 'object'}
+# fixed-width integer dtypes: (signed, bits).  'int' is int64 and is kept as a mathematical integer (no wrap-around modelled:
+# 64-bit overflow is outside every bound used); the narrow ones wrap exactly like numpy's.
+INT_W = {'uint8': (False, 8), 'int8': (True, 8), 'uint16': (False, 16), 'int16': (True, 16), 'uint32': (False, 32), 'int32': (True, 32)}
+INT_TAGS = set(INT_W) | {'int'}
+RANK = {'bool': 0, 'uint8': 1, 'int8': 1.05, 'uint16': 1.2, 'int16': 1.25, 'uint32': 1.4, 'int32': 1.45, 'int': 2, 'float': 3, 'complex': 4}
+NAMES = {'bool': 'bool', 'uint8': 'uint8', 'int8': 'int8', 'uint16': 'uint16', 'int16': 'int16', 'uint32': 'uint32', 'int32': 'int32',
+         'int': 'int64', 'float': 'float64', 'complex': 'complex128', 'str': '<U1', 'object': 'object'}
+
+
+def _iwrap(v, tag):
+    """two's complement / modular reduction of an integer value into the range of a narrow integer dtype."""
+    if tag not in INT_W:
+        return v
+    signed, w = INT_W[tag]
+    m = 1 << w
+    if isinstance(v, int):
+        return ((v + (m >> 1)) % m - (m >> 1)) if signed else v % m
+    if signed:
+        return (v + (m >> 1)) % m - (m >> 1)
+    return v % m
+
+
+def _int_range(tag):
+    signed, w = INT_W[tag]
+    return (-(1 << (w - 1)), (1 << (w - 1)) - 1) if signed else (0, (1 << w) - 1)
+
+
+def _int_promote(a, b):
+    """numpy's result type of two integer dtypes."""
+    if a == b:
+        return a
+    sa, wa = INT_W.get(a, (True, 64))
+    sb_, wb = INT_W.get(b, (True, 64))
+    if sa == sb_:
+        w, sg = max(wa, wb), sa
+    else:
+        wu, ws = (wa, wb) if not sa else (wb, wa)
+        sg = True
+        w = ws if ws > wu else 2 * wu
+    if w >= 64:
+        return 'int'
+    return {(True, 8): 'int8', (True, 16): 'int16', (True, 32): 'int32', (False, 8): 'uint8', (False, 16): 'uint16', (False, 32): 'uint32'}[(sg, w)]
+
+
+def _min_int_tag(v):
+    """np.min_scalar_type of a concrete Python int (value-based casting of scalars against integer arrays, numpy 1.x)."""
+    if v >= 0:
+        return 'uint8' if v < 256 else 'uint16' if v < 65536 else 'uint32' if v < (1 << 32) else 'int'
+    return 'int8' if v >= -128 else 'int16' if v >= -32768 else 'int32' if v >= -(1 << 31) else 'int'
 
 
 class DT:
@@ -28,8 +74,8 @@ class DT:
     def __init__(self, tag):
         self.tag = tag
         self.name = NAMES[tag]
-        self.kind = {'bool': 'b', 'uint8': 'u', 'int': 'i', 'float': 'f', 'complex': 'c', 'str': 'U',
-                     'object': 'O'}[tag]
+        self.kind = {'bool': 'b', 'int': 'i', 'float': 'f', 'complex': 'c', 'str': 'U',
+                     'object': 'O'}.get(tag) or ('i' if INT_W[tag][0] else 'u')
 
     def __eq__(self, o):
         try:
@@ -83,12 +129,17 @@ def dt_tag(d):
         return 'object'
     if isinstance(d, str):
         m = {'bool': 'bool', 'uint8': 'uint8', 'int': 'int', 'int64': 'int', 'float': 'float',
-             'float64': 'float', 'complex': 'complex', 'complex128': 'complex', 'str': 'str'}
+             'float64': 'float', 'complex': 'complex', 'complex128': 'complex', 'str': 'str',
+             'int8': 'int8', 'int16': 'int16', 'int32': 'int32', 'uint16': 'uint16', 'uint32': 'uint32'}
         if d in m:
             return m[d]
-    if isinstance(d, type) and issubclass(d, _np.generic):
-        k = _np.dtype(d).kind
-        return {'b': 'bool', 'u': 'uint8', 'i': 'int', 'f': 'float', 'c': 'complex'}[k]
+    if isinstance(d, _np.dtype) or (isinstance(d, type) and issubclass(d, _np.generic)):
+        dd = _np.dtype(d)
+        if dd.name in NAMES and dd.name in INT_W:
+            return dd.name
+        if dd.kind == 'u':
+            raise EncodingGap(f'dtype {dd.name}')
+        return {'b': 'bool', 'i': 'int', 'f': 'float', 'c': 'complex'}[dd.kind]
     raise TypeError(f'data type {d!r} not understood')
 
 
@@ -125,8 +176,8 @@ def cast(v, tag):
             return core.vf_complex(s.replace('i', 'j'))
         if tag == 'float':
             return core.vf_float(s)
-        if tag in ('int', 'uint8'):
-            return int(s)
+        if tag in INT_TAGS:
+            return _iwrap(int(s), tag)
         if tag == 'bool':
             return bool(int(s))       # numpy parses the text as an integer first
     if tag == 'bool':
@@ -140,24 +191,19 @@ def cast(v, tag):
             return R.of(v) != 0
         if isinstance(v, (C, complex)):
             return C.of(v) != 0
-    elif tag in ('int', 'uint8'):
+    elif tag in INT_TAGS:
         if isinstance(v, bool):
             return int(v)
         if isinstance(v, int):
-            if tag == 'uint8':
-                return v % 256
-            return v
+            return _iwrap(v, tag)
         if isinstance(v, BV):
             return v
         if isinstance(v, SI):
-            if tag == 'uint8':
-                return v % 256
-            return v
+            return _iwrap(v, tag)
         if isinstance(v, SB):
             return v.as_int()
         if isinstance(v, (R, float, Fr)):
-            r = core.trunc(R.of(v))
-            return r % 256 if tag == 'uint8' else r
+            return _iwrap(core.trunc(R.of(v)), tag)
         if isinstance(v, (C, complex)):
             event('warn', 'ComplexWarning: Casting complex values to real discards the imaginary part')
             return cast(C.of(v).re, tag)
@@ -202,7 +248,13 @@ def promote(*tags):
         raise EncodingGap('mixing strings and numbers in one array')
     if 'object' in tags:
         return 'object'
-    return max(tags, key=lambda t: RANK[t])
+    r = tags[0]
+    for t in tags[1:]:
+        if r in INT_TAGS and t in INT_TAGS:
+            r = _int_promote(r, t)
+        else:
+            r = max((r, t), key=lambda u: RANK[u])
+    return r
 
 
 def _obj(shape):
@@ -362,7 +414,7 @@ class ndarray:
                          'Use a.any() or a.all()')
 
     def __index__(self):
-        if self.size == 1 and self._tag in ('int', 'uint8') and self._a.ndim == 0:
+        if self.size == 1 and self._tag in INT_TAGS and self._a.ndim == 0:
             return operator.index(self._a[()])
         raise TypeError('only integer scalar arrays can be converted to a scalar index')
 
@@ -425,7 +477,7 @@ class ndarray:
                 basic = False
                 if k._tag == 'bool':
                     out.append(_np.array([bool(v) for v in k.flat_list()], dtype=bool).reshape(k.shape))
-                elif k._tag in ('int', 'uint8'):
+                elif k._tag in INT_TAGS:
                     fl = k.flat_list()
                     if any(isinstance(v, (SI, BV)) for v in fl):
                         raise _SymIndex()
@@ -565,6 +617,9 @@ class ndarray:
     def __neg__(self):
         if self._tag == 'bool':
             raise TypeError('The numpy boolean negative, the `-` operator, is not supported')
+        if self._tag in INT_W:
+            t = self._tag
+            return _map(lambda v: _iwrap(-v, t), self, t)
         return _map(operator.neg, self, self._tag)
 
     def __pos__(self):
@@ -576,10 +631,11 @@ class ndarray:
     def __invert__(self):
         if self._tag == 'bool':
             return _map(sb_not, self, 'bool')
-        if self._tag == 'uint8':
-            return _map(lambda v: 255 - v, self, 'uint8')
-        if self._tag == 'int':
-            return _map(lambda v: -v - 1, self, 'int')
+        if self._tag in INT_W and not INT_W[self._tag][0]:
+            top = (1 << INT_W[self._tag][1]) - 1
+            return _map(lambda v: top - v, self, self._tag)
+        if self._tag in INT_TAGS:
+            return _map(lambda v: -v - 1, self, self._tag)
         raise TypeError("ufunc 'invert' not supported for the input types")
 
     # ------------------------------------------------------------ reductions / methods
@@ -715,8 +771,10 @@ def _binop(op, x, y):
             return _elementwise(_bool_op(op), xa, ya, xarr, yarr, 'bool', 'bool')
         if RANK[xt] <= 2 and RANK[yt] <= 2:
             pyop = {'and': operator.and_, 'or': operator.or_, 'xor': operator.xor}[op]
-            return _elementwise(pyop, xa, ya, xarr, yarr, promote(xt, yt, 'uint8' if 'uint8' in (xt, yt) else 'int'), 'int')
+            xt, yt = _value_based(xa, xt, xarr, ya, yt, yarr)
+            return _elementwise(pyop, xa, ya, xarr, yarr, promote(xt, yt) if promote(xt, yt) != 'bool' else 'int', 'int')
         raise TypeError(f"ufunc 'bitwise_{op}' not supported for the input types")
+    xt, yt = _value_based(xa, xt, xarr, ya, yt, yarr)
     res = promote(xt, yt)
     if op == 'div':
         res = promote(res, 'float')
@@ -730,11 +788,6 @@ def _binop(op, x, y):
         if op == 'sub':
             raise TypeError('numpy boolean subtract, the `-` operator, is not supported')
         res = 'int'
-    if res == 'uint8' and not (xt == 'uint8' and yt == 'uint8'):
-        # uint8 array with a Python int: numpy keeps uint8 when the value fits; we do not model the
-        # wrap-around and promote to int instead (recorded; no anchored code relies on wrapping)
-        if op in ('sub',):
-            res = 'int'
     pre = res
     if op in ('floordiv', 'mod') and res in ('float',):
         pre = 'float'
@@ -743,6 +796,34 @@ def _binop(op, x, y):
         # exponent keeps its own type (integer exponents stay integers)
         return _elementwise(f, xa, ya, xarr, yarr, res, None, cast_x=res)
     return _elementwise(f, xa, ya, xarr, yarr, res, pre)
+
+
+def _value_based(xa, xt, xarr, ya, yt, yarr):
+    """numpy 1.x value-based casting: an integer *scalar* combined with an integer *array* of a narrow dtype does not widen the
+    array's dtype when its value fits (uint8_array - 1 stays uint8 and wraps).  A symbolic scalar forks on whether it fits; one
+    that does not fit widens to int64 (numpy would pick the smallest sufficient dtype: not distinguished here)."""
+    def adj(sv, st, at):
+        if at not in INT_W or st not in ('int', 'bool'):
+            return st
+        if isinstance(sv, bool) or st == 'bool':
+            return at
+        if isinstance(sv, int):
+            lo, hi = _int_range(at)
+            if lo <= sv <= hi:
+                return at
+            if sv >= 0 and INT_W[at][0]:
+                return 'int16' if sv < (1 << 15) else 'int32' if sv < (1 << 31) else 'int'
+            return _min_int_tag(sv)
+        if isinstance(sv, SI):
+            lo, hi = _int_range(at)
+            fits = sb_and([sv >= lo, sv <= hi])
+            return at if fits else 'int'
+        return st
+    if xarr and not yarr:
+        return xt, adj(ya, yt, xt)
+    if yarr and not xarr:
+        return adj(xa, xt, yt), yt
+    return xt, yt
 
 
 def _elementwise(f, xa, ya, xarr, yarr, res_tag, pre_tag, cast_x=None):
@@ -841,6 +922,8 @@ def array(obj, dtype=None, copy=True, ndmin=0):
     if tag is None:
         if isinstance(obj, ndarray):
             tag = obj._tag
+        elif isinstance(obj, _np.ndarray) and obj.dtype.kind in 'iu':
+            tag = dt_tag(obj.dtype)
         elif flat:
             tag = promote(*[scalar_tag(v) for v in flat])
         else:
@@ -1157,7 +1240,7 @@ def np_sum(a, axis=None, dtype=None, keepdims=False, **kw):
     if a is None:
         return None
     tag = a._tag
-    if tag in ('bool', 'uint8'):
+    if tag == 'bool' or tag in INT_W:
         a = a.astype('int')
         tag = 'int'
     r = _reduce(a, axis, lambda xs: _sum_list(xs, tag), tag)
@@ -1293,7 +1376,7 @@ def cumsum(a, axis=None):
     a = _as_nd(a)
     if a.ndim != 1:
         raise EncodingGap('cumsum of non 1-D array')
-    tag = 'int' if a._tag in ('bool', 'uint8') else a._tag
+    tag = 'int' if (a._tag == 'bool' or a._tag in INT_W) else a._tag
     out, acc = [], None
     for v in a.astype(tag).flat_list():
         acc = v if acc is None else acc + v
@@ -1441,7 +1524,7 @@ def round_(x, decimals=0):
     if decimals != 0:
         raise EncodingGap('np.round with decimals')
     if isinstance(x, ndarray):
-        if x._tag in ('int', 'uint8', 'bool'):
+        if x._tag in INT_TAGS or x._tag == 'bool':
             return x.copy()
         if x._tag == 'complex':
             raise EncodingGap('round of complex')
@@ -1727,7 +1810,11 @@ random = _Random
 
 uint8 = _DTS['uint8']
 int64 = _DTS['int']
-int32 = _DTS['int']
+int32 = _DTS['int32']
+int16 = _DTS['int16']
+int8 = _DTS['int8']
+uint16 = _DTS['uint16']
+uint32 = _DTS['uint32']
 int_ = _DTS['int']
 float64 = _DTS['float']
 float32 = _DTS['float']
